@@ -53,8 +53,8 @@ class Ctx:
         self.t0 = time.time()
         self.work = VERIF / 'work' / prop
         if self.work.exists():
-            shutil.rmtree(self.work)
-        self.work.mkdir(parents=True)
+            shutil.rmtree(self.work, ignore_errors=True)
+        self.work.mkdir(parents=True, exist_ok=True)
         self.repo = REPO
         self.findings = [f for f in load_findings() if f.get('property') == prop]
         # bookkeeping
